@@ -58,6 +58,57 @@ func runC18(x *X) {
 		x.Nontrivial(dc.Name + tg.String())
 		compareTextTable(x, "C18", tg, dc, []string{"twin_texts"})
 	})
+	// the layout and emit passes must still agree when a cell's text CHANGES between two renders of one wrapper
+	// (whatever a render remembers about a cell's measurements must follow Update and Row.Add)
+	var shorts []string
+	shorts = append(shorts, "")
+	for _, a := range c18Atoms {
+		shorts = append(shorts, a)
+		for _, b := range c18Atoms {
+			shorts = append(shorts, a+b)
+		}
+	}
+	x.Explore("re-render-after-update", ExploreOpts{ShardDepth: 2, Bound: fmt.Sprintf("%d x %d strings of <=2 atoms: one wrapper renders a table whose first cell shows s1, the item is changed to s2 + Update (or a cell with s2 is added to the attached row), the same wrapper renders again", len(shorts), len(shorts))}, func(c *Chooser) {
+		s1, s2 := shorts[c.Choose(len(shorts))], shorts[c.Choose(len(shorts))]
+		how := c.Choose(2)
+		if !c18SelfConsistent(s1) || !c18SelfConsistent(s2) {
+			return
+		}
+		it, setF := mkItem(mS, true, ItemF{S: s1})
+		tt := texttable.New()
+		tt.AddRowItems(it, "x")
+		tt.AddRowItems("yy")
+		dc := namedDecor("ascii-simple")
+		if err := dc.Apply(tt); err != nil {
+			panic("harness: " + err.Error())
+		}
+		tg := &TGrid{Rows: []TRow{{Cells: []TCell{{Text: s1}, {Text: "x"}}}, {Cells: []TCell{{Text: "yy"}}}}}
+		c.Logf("table [%q x] [yy]; Render; then %s with %q; Render on the same wrapper", s1, []string{"item changed + Update", "a third cell added to the attached first row"}[how], s2)
+		tags := append(c18Tags(s1+s2), "re_render_after_update")
+		for pass := 0; pass < 2; pass++ {
+			var out string
+			var err error
+			if p, val, site := Safe(func() { out, err = tt.Render() }); p {
+				x.FailSite("C18.layout_emit", append(tags, "panic"), site, "render %d panicked: %v", pass+1, val)
+				return
+			}
+			judgeTextTable(x, "C18", tg, dc, tags, out, err)
+			if pass == 0 {
+				if how == 0 {
+					setF(ItemF{S: s2})
+					cp, _ := tt.CellAt(tabular.CellLocation{Row: 1, Column: 1})
+					cp.Update()
+					tg.Rows[0].Cells[0].Text = s2
+				} else {
+					tt.AllRows()[0].Add(tabular.NewCell(s2))
+					tg.Rows[0].Cells = append(tg.Rows[0].Cells, TCell{Text: s2})
+				}
+				x.Transition(1)
+			}
+		}
+		x.State(s1 + "\x00" + s2)
+		x.Nontrivial(fmt.Sprint(how, s1, "\x00", s2))
+	})
 	maxLen := x.Pick(5, 7)
 	ascii := "ascii-simple"
 	x.Explore("strings", ExploreOpts{ShardDepth: 3, Bound: fmt.Sprintf("all strings of <=%d atoms over %d atoms", maxLen, len(c18Atoms))}, func(c *Chooser) {
